@@ -70,6 +70,9 @@ type c16Case struct {
 	// FaultOnClose: the transport reports an error for the Write call that carried the library's first Close
 	// frame although the bytes went out (a transient fault): the frame IS on the wire, so nothing may follow it
 	FaultOnClose bool
+	// SecondClose > 0: that long after the cause another goroutine calls Close as well (a deferred Close somewhere
+	// else in the application), typically while the first closer still waits for the peer's answer
+	SecondClose time.Duration
 }
 
 var c16Causes = []string{"local-close", "local-close", "local-close-1005", "peer-close", "peer-close-empty", "violation", "read-limit", "closeread-data", "netconn-type", "wsjson"}
@@ -128,6 +131,9 @@ func genC16(rt *rapid.T) c16Case {
 	c.FinalGap = rapid.SampledFrom([]time.Duration{0, time.Second, 12 * time.Second}).Draw(rt, "finalGap")
 	c.PeerPings = rapid.SampledFrom([]int{0, 0, 1, 2}).Draw(rt, "peerPingsAfterClose")
 	c.FaultOnClose = rapid.IntRange(0, 4).Draw(rt, "transportFaultOnTheCloseFrame") == 0
+	if rapid.IntRange(0, 2).Draw(rt, "secondCloser") == 0 {
+		c.SecondClose = rapid.SampledFrom([]time.Duration{time.Millisecond, 100 * time.Millisecond, time.Second, 4 * time.Second}).Draw(rt, "secondCloseAfter")
+	}
 	return c
 }
 
@@ -336,6 +342,13 @@ func runC16(t fataler, c c16Case) (string, c16Result) {
 			}
 		})
 	}
+	if c.SecondClose > 0 {
+		e.Go(func() {
+			if e.sleep(c.CauseAt + c.SecondClose) {
+				conn.Close(websocket.StatusGoingAway, "second closer")
+			}
+		})
+	}
 	// the cause
 	causeDone := e.Call(func() {
 		if !e.sleep(c.CauseAt) {
@@ -448,7 +461,7 @@ func TestC16(t *testing.T) {
 				shape += fmt.Sprintf(",%d/%v/%d/%v", lenClass(m.Len), m.UseWriter, len(m.Chunks), m.Gap)
 			}
 		}
-		classes := []string{"cause:" + c.Cause, "echo:" + c.Echo, "final:" + c.Final, "mode:" + c.Mode.Name, map[bool]string{true: "transport-reports-an-error-for-the-write-that-carried-the-close-frame"}[c.FaultOnClose]}
+		classes := []string{"cause:" + c.Cause, "echo:" + c.Echo, "final:" + c.Final, "mode:" + c.Mode.Name, map[bool]string{true: "transport-reports-an-error-for-the-write-that-carried-the-close-frame"}[c.FaultOnClose], map[bool]string{true: "a-second-Close-call-shortly-after-the-cause"}[c.SecondClose > 0]}
 		if res.OpAfterClose {
 			classes = append(classes, "op-issued-after-close-frame")
 		}
